@@ -26,6 +26,7 @@ RULE = (
     "scalars (N,) under Scalar/; rejection: with one registered dataset deleted from the file, or an Eulerian origin/dx/grid_size "
     "registered that differs by >= 1e-3 relative, load() must raise. Non-trivial: >= 1 Lagrangian vector field or Eulerian vector "
     "field and at least one special value (NaN/inf/denormal) in the contents. Distinct = digest of case."
+    " File histories: save() into an existing file name (same / reduced registry); deviation on the file side; zero origin components; whole-array zero/constant patterns; (grid, field) names that join to the same string."
 )
 ASSUMPTIONS = ["h5py/HDF5 trusted", "field names are Python identifiers (they are passed as keyword arguments)",
                "Eulerian grids have >= 2 cells along x for EulerianFieldIO (spacing is read from the coordinate field)"]
